@@ -7,8 +7,8 @@ seeds=("$@"); [ ${#seeds[@]} -eq 0 ] && seeds=($(ls seeded))
 for sd in "${seeds[@]}"; do
   own="${sd%%-*}"
   extra=""
-  case "$sd" in C10-B|C11-B|C17-*|C07-A|C14-D|C15-D) extra="$extra C17";; esac
-  case "$own" in C01|C03|C04|C13) extra="$extra C03";; esac
+  case "$sd" in C10-B|C11-B|C17-*|C07-A|C14-D|C15-D|C05-F|C06-E) extra="$extra C17";; esac
+  case "$own" in C01|C03|C04|C13|C07) extra="$extra C03";; esac
   list=""
   for c in $own $cheap $extra; do case " $list " in *" $c "*) ;; *) list="$list $c";; esac; done
   set -- $list
